@@ -10,7 +10,7 @@ From Coq Require Import Reals ZArith List Bool Arith QArith Qcanon String Permut
 From AV.lib Require Import QcInst.
 From AV.C12 Require Import Base Model.
 From AV.gen Require Import C12_Gen.
-Require AV.C06.Base AV.C06.Model AV.C06.Lemmas AV.gen.C06_Gen.
+Require AV.C06.Base AV.C06.Model AV.gen.C06_Gen.
 Import ListNotations.
 
 (* ================================================================== Part A: any field *)
@@ -754,6 +754,9 @@ Hypothesis Hsame : same_molecule RO Rm t sp sp'.
 Hypothesis Horth : orthogonal RO Rm.
 Hypothesis Hmass : mom0 RO (sp_atoms sp) <> 0.
 
+Lemma frame_vib : sp_vib sp' = sp_vib sp.
+Proof. destruct Hsame as [_ [Hlin [fr [E1 E2]]]]. rewrite E1, E2, Hlin. reflexivity. Qed.
+
 Lemma frame_length : List.length (sp_atoms sp') = List.length (sp_atoms sp).
 Proof. destruct Hsame as [P _]. rewrite (Permutation_length P), map_length. reflexivity. Qed.
 
@@ -770,9 +773,9 @@ Lemma frame_invariants :
   det3 RO (eig_arg RO sp') = det3 RO (eig_arg RO sp) /\ trace3 RO (eig_arg RO sp') = trace3 RO (eig_arg RO sp).
 Proof. destruct Hsame as [P _]. apply (eig_arg_invariants RO Rinv RO_field Rm t); assumption. Qed.
 
-Lemma frame_q_rot T s : eig_ok sp -> eig_ok sp' -> q_rot_igm RO sp' T s = q_rot_igm RO sp T s.
+Lemma frame_q_rot T s : (needs_eig sp -> eig_ok sp) -> (needs_eig sp' -> eig_ok sp') -> q_rot_igm RO sp' T s = q_rot_igm RO sp T s.
 Proof.
-  intros Hok Hok'. destruct Hsame as [P [Hlin Hvib]].
+  intros Hok Hok'. destruct Hsame as [P [Hlin _]]. pose proof frame_vib as Hvib.
   destruct (Nat.eq_dec (List.length (sp_atoms sp)) 1) as [Hn|Hn].
   - unfold q_rot_igm. rewrite frame_length, Hn. reflexivity.
   - destruct (sp_linear sp) eqn:El.
@@ -781,13 +784,16 @@ Proof.
       rewrite (ival_gen RO Rinv RO_field (sp_atoms sp)) by exact Hmass.
       rewrite (trQcen_invariant RO Rinv RO_field Rm t (sp_atoms sp) (sp_atoms sp')) by assumption.
       reflexivity.
-    + rewrite !q_rot_nonlinear_det by (try assumption; try (rewrite frame_length; assumption); congruence).
+    + assert (Ne : needs_eig sp) by (split; assumption).
+      assert (Ne' : needs_eig sp') by (split; [congruence|rewrite frame_length; assumption]).
+      specialize (Hok Ne). specialize (Hok' Ne').
+      rewrite !q_rot_nonlinear_det by (try assumption; try (rewrite frame_length; assumption); congruence).
       rewrite (proj1 frame_invariants). reflexivity.
 Qed.
 
-Lemma frame_entropy p : eig_ok sp -> eig_ok sp' -> entropy RO sp' p = entropy RO sp p.
+Lemma frame_entropy p : (needs_eig sp -> eig_ok sp) -> (needs_eig sp' -> eig_ok sp') -> entropy RO sp' p = entropy RO sp p.
 Proof.
-  intros Hok Hok'. destruct Hsame as [P [Hlin Hvib]].
+  intros Hok Hok'. destruct Hsame as [P [Hlin _]]. pose proof frame_vib as Hvib.
   unfold entropy, s_trans_pib, s_rot_rr, igm_s_vib, truhlar_s_vib, grimme_s_vib. cbv zeta.
   rewrite frame_length, Hlin, Hvib, !frame_q_trans, !frame_q_rot by assumption.
   fold (eig_arg RO sp') (eig_arg RO sp). rewrite (proj2 frame_invariants). reflexivity.
@@ -795,11 +801,11 @@ Qed.
 
 Lemma frame_internal_energy p : internal_energy RO sp' p = internal_energy RO sp p.
 Proof.
-  destruct Hsame as [P [Hlin Hvib]].
+  destruct Hsame as [P [Hlin _]]. pose proof frame_vib as Hvib.
   unfold internal_energy, zpe, internal_vib_energy. cbv zeta. rewrite frame_length, Hlin, Hvib. reflexivity.
 Qed.
 
-Lemma frame_thermo p : eig_ok sp -> eig_ok sp' ->
+Lemma frame_thermo p : (needs_eig sp -> eig_ok sp) -> (needs_eig sp' -> eig_ok sp') ->
   h_cont RO sp' p = h_cont RO sp p /\ g_cont RO sp' p = g_cont RO sp p.
 Proof.
   intros Hok Hok'. rewrite !h_cont_U, !g_cont_US, frame_internal_energy, frame_entropy by assumption. split; reflexivity.
@@ -835,11 +841,13 @@ Lemma freq_arg_hz x :
   freq_arg (WithUnit x AV.gen.C06_Gen.u_hz) = Some (AV.gen.C06_Gen.conv x AV.gen.C06_Gen.u_hz AV.gen.C06_Gen.u_wavenumber).
 Proof. unfold freq_arg. apply value_to_other; vm_compute; reflexivity. Qed.
 
-(* the C06 identity at the same unit *)
+(* the C06 identity at the same unit (re-proved here over the generated conv, so that this slice does not depend on C06/Lemmas.v) *)
+Lemma conv_same_local x u : AV.C06.Base.utimes u <> Q2Qc 0 -> AV.gen.C06_Gen.conv x u u = x.
+Proof. intros Hu. unfold AV.gen.C06_Gen.conv. field. exact Hu. Qed.
 Lemma conv_same_kelvin x : AV.gen.C06_Gen.conv x AV.gen.C06_Gen.u_kelvin AV.gen.C06_Gen.u_kelvin = x.
-Proof. apply AV.C06.Lemmas.conv_same. vm_compute. discriminate. Qed.
+Proof. apply conv_same_local. vm_compute. discriminate. Qed.
 Lemma conv_same_wavenumber x : AV.gen.C06_Gen.conv x AV.gen.C06_Gen.u_wavenumber AV.gen.C06_Gen.u_wavenumber = x.
-Proof. apply AV.C06.Lemmas.conv_same. vm_compute. discriminate. Qed.
+Proof. apply conv_same_local. vm_compute. discriminate. Qed.
 Open Scope R_scope.
 (* ---------- G-level consequences for the interpolating methods ---------- *)
 Lemma to_Ha_abs x : Rabs (to_Ha x) = to_Ha (Rabs x).
@@ -937,3 +945,27 @@ Close Scope R_scope.
 (* the rational instance is a field as well *)
 Lemma QO_field : field_theory (o0 QO) (o1 QO) (oadd QO) (omul QO) (osub QO) (oopp QO) (odiv QO) Qcinv (@eq Qc).
 Proof. exact Qcft. Qed.
+
+(* ================================================================== Part D: the linearity decision and atom order *)
+Lemma forallb_perm {A} (f : A -> bool) l l' : Permutation l l' -> forallb f l = forallb f l'.
+Proof.
+  induction 1 as [|x l l' _ IH|x y l|l l' l'' _ IH1 _ IH2]; cbn [forallb].
+  - reflexivity.
+  - rewrite IH. reflexivity.
+  - destruct (f x), (f y); reflexivity.
+  - rewrite IH1. exact IH2.
+Qed.
+
+Lemma forallb_ext' {A} (f g : A -> bool) l : (forall x, f x = g x) -> forallb f l = forallb g l.
+Proof. intros H. induction l as [|a l IH]; cbn [forallb]; [reflexivity|]. rewrite H, IH. reflexivity. Qed.
+
+Lemma all_on_axis_perm tol atoms atoms' : Permutation atoms atoms' -> all_on_axis tol atoms = all_on_axis tol atoms'.
+Proof.
+  intros P. unfold all_on_axis. rewrite (forallb_perm _ _ _ P). apply forallb_ext'. intros a.
+  rewrite (forallb_perm _ _ _ P). apply forallb_ext'. intros j. apply forallb_perm. exact P.
+Qed.
+
+Lemma are_linear_q_perm tol atoms atoms' : Permutation atoms atoms' -> are_linear_q tol atoms = are_linear_q tol atoms'.
+Proof.
+  intros P. unfold are_linear_q. rewrite (Permutation_length P), (all_on_axis_perm tol _ _ P). reflexivity.
+Qed.
